@@ -18,3 +18,13 @@ check("C14", "exploration",
       "Trusted: the 20-line list model; net.Buffers.WriteTo semantics for plain io.Writers.",
       "runtime monitoring: lock-step model-based execution with a recording sink, exhaustive over bounded histories",
       "DESIGN.md 3/C14")
+check("C05", "fault_enumeration",
+      "Round-trips generated payloads through the real compress.Writer/Reader (all methods, LZ4HC levels, frame sequences, mixed-method sequences through one reader, reused writers, many read sizes, also through proto.Reader), parses every written frame with an independent frame parser, then alters every byte of sample frames (all offsets x several masks), keeps reading after each error and attributes every byte handed out to a verified frame via position-tagged payloads; oversize headers must be rejected with a bounded allocation delta. Held = no corrupted frame accepted, no unattributable byte, on the faults enumerated.",
+      "Trusted: CityHash128 / lz4 / zstd primitives (shared third-party code), runtime/metrics allocation counter.",
+      "runtime monitoring: fault injection (byte alteration at every offset) with an online byte-attribution checker",
+      "DESIGN.md 3/C05")
+check("C07", "fault_enumeration",
+      "Takes library-produced encodings (blocks of every catalogue column and random compositions, column first/last/alone, blocks ending inside large strings; every protocol message at threshold-neighbour revisions), cuts them at every position (sampled for long ones), plain and inside each kind of compressed frame, and decodes each proper prefix with typed and inferred targets. Held = every prefix tried was rejected with an error.",
+      "Assumes the full encoding decodes with exact consumption (verified per case first).",
+      "runtime monitoring: exhaustive truncation-point enumeration over generated encodings",
+      "DESIGN.md 3/C07")
